@@ -64,6 +64,9 @@ type plan struct {
 	MwFailAt int
 	MwWrites bool // mw-err: the failing middleware has answered the request itself (status 401) before it returns its error
 	PanicVal int  // handler-panic: what the handler panics with (see panicValue)
+	// MwErrKind (mw-err): 0 a plain error; 1 an error of the framework's own error type (fiber.ErrUnauthorized,
+	// echo.NewHTTPError, *gin.Error) - what an authentication step written for that framework returns; 2 the same wrapped with %w
+	MwErrKind int
 }
 
 // panicValue: handlers do not only panic with strings. http.ErrAbortHandler is the documented
@@ -482,6 +485,12 @@ func ginAdapter(w *webWorld, p godi.Provider, cfg appCfg) func(string) (int, any
 		i := i
 		opts = append(opts, godigin.WithMiddleware(func(s godi.Scope, c *gin.Context) error {
 			err := w.onMiddleware(i, s, reqID(c.Request))
+			switch k := w.plan(reqID(c.Request)).MwErrKind; {
+			case err != nil && k == 1:
+				err = &gin.Error{Err: err, Type: gin.ErrorTypePublic}
+			case err != nil && k == 2:
+				err = fmt.Errorf("authentication: %w", &gin.Error{Err: err, Type: gin.ErrorTypePrivate})
+			}
 			if err != nil && w.mwWrites(reqID(c.Request), i) {
 				c.String(401, "rejected")
 			}
@@ -569,6 +578,12 @@ func echoAdapter(w *webWorld, p godi.Provider, cfg appCfg) func(string) (int, an
 		i := i
 		opts = append(opts, godiecho.WithMiddleware(func(s godi.Scope, c echo.Context) error {
 			err := w.onMiddleware(i, s, reqID(c.Request()))
+			switch k := w.plan(reqID(c.Request())).MwErrKind; {
+			case err != nil && k == 1:
+				err = echo.NewHTTPError(401, "unauthorized")
+			case err != nil && k == 2:
+				err = fmt.Errorf("authentication: %w", echo.ErrForbidden)
+			}
 			if err != nil && w.mwWrites(reqID(c.Request()), i) {
 				_ = c.String(401, "rejected")
 			}
@@ -639,6 +654,12 @@ func fiberAdapter(w *webWorld, p godi.Provider, cfg appCfg) func(string) (int, a
 		i := i
 		opts = append(opts, godifiber.WithMiddleware(func(s godi.Scope, c *fiber.Ctx) error {
 			err := w.onMiddleware(i, s, fid(c))
+			switch k := w.plan(fid(c)).MwErrKind; {
+			case err != nil && k == 1:
+				err = fiber.ErrUnauthorized
+			case err != nil && k == 2:
+				err = fmt.Errorf("authentication: %w", fiber.NewError(403, "forbidden"))
+			}
 			if err != nil && w.mwWrites(fid(c), i) {
 				_ = c.Status(401).SendString("rejected")
 			}
@@ -899,7 +920,7 @@ func judge(cfg appCfg, pl *plan, l *reqLog, status int, escaped any, providerClo
 var probeType = reflectTypeOfProbe()
 
 func TestC16Web(t *testing.T) {
-	col := evid.New("C16", "requests", "for each of net/http, chi, gin, echo, fiber: generated application configurations (0-3 middlewares, custom/default error and close-error handlers, plain handler or Handle wrapper with/without panic recovery and custom handlers, controller registered or not, Handle mounted with/without the scope middleware, optional initializer; gin, echo, fiber: the handler mounted on the requested route or as the framework's not-found / method-not-allowed handler) x request sequences and concurrent batches (2-12 requests) x exit path per request (ok, middleware error at position i, handler error, handler panic, scope-creation failure, client gone: the request context is cancelled while the handler runs, so the scope's context watcher closes the scope before the middleware's own Close) plus requests after the provider was closed; oracle from callback logs and a scoped disposable probe: one scope per request, identical for every middleware (in order), the handler, the probe's own scope/context and the controller Handle resolves; concurrent requests never share; scope disposed and probe closed exactly once after every exit path; error handler runs and handler does not on middleware error / scope-creation failure; Handle calls the method iff resolution succeeded else exactly one error handler, and swallows panics iff recovery is on; non-trivial = exit path != ok, >=2 middlewares, or a concurrent batch >=4")
+	col := evid.New("C16", "requests", "for each of net/http, chi, gin, echo, fiber: generated application configurations (0-3 middlewares, custom/default error and close-error handlers, plain handler or Handle wrapper with/without panic recovery and custom handlers, controller registered or not, Handle mounted with/without the scope middleware, optional initializer; gin, echo, fiber: the handler mounted on the requested route or as the framework's not-found / method-not-allowed handler) x request sequences and concurrent batches (2-12 requests) x exit path per request (ok, middleware error at position i - a plain error, an error of the framework's own error type or one wrapping it -, handler error, handler panic, scope-creation failure, client gone: the request context is cancelled while the handler runs, so the scope's context watcher closes the scope before the middleware's own Close) plus requests after the provider was closed; oracle from callback logs and a scoped disposable probe: one scope per request, identical for every middleware (in order), the handler, the probe's own scope/context and the controller Handle resolves; concurrent requests never share; scope disposed and probe closed exactly once after every exit path; error handler runs and handler does not on middleware error / scope-creation failure; Handle calls the method iff resolution succeeded else exactly one error handler, and swallows panics iff recovery is on; non-trivial = exit path != ok, >=2 middlewares, or a concurrent batch >=4")
 	defer col.Flush()
 	names := []string{"http", "chi", "gin", "echo", "fiber"}
 	rapid.Check(t, func(rt *rapid.T) {
@@ -958,6 +979,7 @@ func TestC16Web(t *testing.T) {
 			if pl.Exit == "mw-err" {
 				pl.MwFailAt = rapid.IntRange(0, 3).Draw(rt, "mwFailAt")
 				pl.MwWrites = rapid.IntRange(0, 2).Draw(rt, "mwWrites") == 0
+			pl.MwErrKind = rapid.IntRange(0, 2).Draw(rt, "mwErrKind")
 			}
 			if pl.Exit == "client-gone" && cfg.Framework == "fiber" {
 				pl.Exit = "ok" // fiber's user context is not tied to the connection: nothing to cancel
